@@ -18,12 +18,12 @@ PROPS['C16'] = dict(
           'x_histories_checked); distinct = coverage items (operation kind, target present/absent, capacity exhausted, bucket shared, size class, '
           'free-slot class, result) for random histories and (operation, target state, result, size, free slots, occupancy of the three buckets) '
           'for enumerated ones'),
-    floor=150,
+    floor=300,
     assumptions=['capacity is what opn2_reserveBanks returns (also for a request of 0, which the monitor issues after every call)',
                  'a new bank reads as 128 instruments with exactly the blank flag set and every other member zero',
                  'a bank image that lists one identifier twice leaves the later entry; a refused image leaves the map and all handles as they were'],
     stages=[
-        dict(name='random', variant='asan', harness='c16_bankmap.cpp', quick=8000, thorough=100000, budget=120, cxxflags=['-O1']),
+        dict(name='random', variant='asan', harness='c16_bankmap.cpp', quick=5000, thorough=100000, budget=120, cxxflags=['-O1']),
         dict(name='exhaustive', variant='asan', harness='c16_bankmap.cpp', quick=676, thorough=17576, budget=600, opts=_c16_x, cxxflags=['-O1']),
         dict(name='exhaustive-pre', variant='asan', harness='c16_bankmap.cpp', quick=78, thorough=2028, budget=600, opts=_c16_xp, cxxflags=['-O1']),
     ],
